@@ -1,6 +1,6 @@
 (* Extraction of M-TX (on top of M-EXEC / M-PEND). ExtrOcamlBasic only. *)
 Require Extraction.
 Require Import ExtrOcamlBasic.
-From Atlas Require Import Base.Bytes Exec.ExecModel Exec.PendingModel Exec.RunModel Exec.TxModel Exec.DryModel Exec.FkModel.
+From Atlas Require Import Base.Bytes Exec.ExecModel Exec.PendingModel Exec.RunModel Exec.TxModel Exec.DryModel Exec.FkModel Exec.TxOrderModel Exec.LockModel Exec.CrashPointsModel Exec.DryFlagsModel.
 Extraction Language OCaml.
-Extraction "model.ml" apply_run crash_state read_revisions migrate_apply apply_changes apply_run_fk apply_changes_fk.
+Extraction "model.ml" apply_run crash_state read_revisions migrate_apply apply_changes apply_run_fk apply_changes_fk apply_run_ord locked_apply concurrent_apply point_name all_points migrate_apply_cmd.
